@@ -328,6 +328,38 @@ def install(handler, g):
             return bool(msgs), "; ".join(msgs)[:400] or "pruning rewrites nested uses"
         helper = rj["function"].rsplit(".", 1)[-1]
         cfg = rj.get("cfg") or {}
+        if cfg.get("history") == "input_is_an_earlier_result":
+            # chained passes on a real fx graph: the graph handed to the second pass is the first pass' result
+            import operator
+
+            def op_a(t):
+                return t
+
+            g = fx.Graph()
+            x = g.placeholder("x")
+            a = g.call_function(op_a, (x,))
+            i = g.call_function(operator.neg, (a,))  # a non-float node with one float input
+            b = g.call_function(op_a, (i,))  # same scale as its input
+            c = g.call_function(op_a, (b, a))
+            g.output((c,))
+            D = ts.Metrics.Data
+            for n, (fl, v) in zip(g.nodes, ((True, 1.0), (True, 2.0), (False, 0.0), (True, 2.0), (True, 5.0), (False, 0.0))):
+                n.meta["clean_name"] = n.name
+                n.meta["outputs_float_tensor"] = fl
+                if fl:
+                    m = ts.Metrics.__new__(ts.Metrics)
+                    m.fwd, m.bwd = D(v, 0, 0, 0, 0, 1), D(v, 0, 0, 0, 0, 1)
+                    n.meta["metrics"] = m
+            first = ts.prune_non_float_tensors(g)
+            before = [(n.name, str(n.args)) for n in first.nodes]
+            second = ts.prune_same_scale_tensors(first) if helper == "prune_same_scale_tensors" else ts.prune_non_float_tensors(first)
+            after = [(n.name, str(n.args)) for n in first.nodes]
+            msgs = []
+            if second is first:
+                msgs.append("the helper returned its input graph object")
+            if after != before:
+                msgs.append(f"the input graph (an earlier result) was modified: {len(before)} -> {len(after)} nodes")
+            return bool(msgs), "; ".join(msgs) or "an earlier result handed in again is left unchanged"
         if helper in ("prune_non_float_tensors", "prune_same_scale_tensors", "prune_selected_nodes") and "user" in cfg:
             # the generic-node graph of contracts/jobs_prune.py as a real torch.fx graph
             import operator
